@@ -64,7 +64,7 @@ CLAIMED = {
           "DESIGN.md §5 C06"),
   "C07": ("Lean 4 theorems: well-formed plans cover every column once, the composed build_table returns exactly the plan's columns, the whole default-strategy synthesis in the model ends with a well-formed plan and exactly the input's columns; nulls only from the null range, strings are value-map entries or prefix*index, one row per unit; from the typed input table for one cluster: one cell per input column, each a null or a value of the column's type, strings input strings or masks (C07_synthesize_single_domains), and the same for any cluster plan through build_table (C07_table_domains, C07_synthesize_plan_domains); schema of the default-strategy synthesis with sub-sampling (clustering/sampling.py inside the model: C07_sampleDefaultSampled_schema); nulls only where there were nulls: from the typed table for per-column patching (C07_synthesize_noClustering_no_nulls), for clusters of several columns only for columns without folded outliers (C07_no_nulls_partial) + value-exact correspondence of the composed model of sample() (one cluster; all clusters with stitching; the default strategy with measures and plan search, with and without sub-sampling) with the real Synthesizer + sample() run on generated tables of every type under every strategy with schema/dtype/domain checks",
           "Proof of the schema and domain clauses of the composed model for all inputs; the composed model reproduces sample() value for value; pandas astype / scikit-learn are exercised end to end on every run. That the run completes is not a theorem.",
-          "pandas/scikit-learn outside the model. The null clause for clusters of several columns is partial (hypothesis: no value beyond the column's final root range). Known findings: RecursionError for float values closer than ~2^-900 of the column range (F10); ValueError when a cluster's microtable is empty while the table so far is not (F14, found by the thorough tier).",
+          "pandas/scikit-learn outside the model. The null clause for clusters of several columns is partial (hypothesis: no value beyond the column's final root range). Known findings: RecursionError for float values closer than ~2^-900 of the column range (F10); ValueError when a cluster's microtable is empty while the table so far is not (F14, found by the thorough tier) and its mirror image (F19); IndexError for a released string range beyond the value map (F21, found by the thorough tier; a consequence of the C18 hull finding).",
           "DESIGN.md §5 C07"),
   "C14": ("Lean 4 theorems (matrix symmetric with unit diagonal for every forest, every score in [0,1], weighted mean in [0,1], entropy >= 0 when released shares are <= 1) + bit-exact correspondence of measure_all (entropies and dependency matrix, joint walk incl. singular branches and folded outliers) + bounds and ranking claims evaluated on real forests",
           "Machine-checked proof of the bounded/symmetric clauses for all inputs over exact arithmetic; measures.py modelled and compared bit for bit (log2 from the same libm); the statistical ranking clauses are NOT proved - they are evaluated on seeded tables and reported as support; gross deviations are reported as failures.",
